@@ -223,4 +223,37 @@ def check(run, ctx):
             run.finding(T7, f"SRPRule.{rec['name']}", f"memoised:{rec['store']}", f"{rec['func'].qual} caches the SRPConfig of the first file ({rec['store']}); SRPConfig.from_dict resolves srp.<language>.* at parse time, so later files of other languages are judged with the wrong limits", rec["func"].loc)
         else:
             run.ok(T7, f"SRPRule.{rec['name']}", "configuration resolved per file (language passed to from_dict)")
+    T12 = run.rule("T12", "the keyword criterion is the same predicate in the three analyzers: any(<keyword> in <class name> for <keyword> in <configured keywords>) - plain substring containment, one keyword at a time", floor=3,
+                   decides="an empty `keywords` list flags nothing, a keyword is never read as a pattern, and the same class name gets the same verdict in Python, TypeScript and Rust")
+    n_t12 = 0
+    for m in repo.modules_in(PKG):
+        for f in [x for x in repo.funcs.values() if x.module is m and x.parent is None]:
+            vals = [v for d in ast.walk(f.node) if isinstance(d, ast.Dict) for k, v in zip(d.keys, d.values) if isinstance(k, ast.Constant) and k.value == "has_keyword"]
+            for v in vals:
+                n_t12 += 1
+                e, owner = v, f
+                for _ in range(3):
+                    if isinstance(e, ast.Name):
+                        b = [a.value for a in ast.walk(owner.node) if isinstance(a, ast.Assign) and len(a.targets) == 1 and isinstance(a.targets[0], ast.Name) and a.targets[0].id == e.id]
+                        if len(b) != 1:
+                            break
+                        e = b[0]
+                    elif isinstance(e, ast.Call) and call_name(e) != "any":
+                        h = inline.resolve_call(repo, owner, e)
+                        rets = [r.value for r in ast.walk(h.node) if isinstance(r, ast.Return) and r.value is not None] if h is not None else []
+                        if len(rets) != 1:
+                            break
+                        e, owner = rets[0], h
+                    else:
+                        break
+                gen = e.args[0] if isinstance(e, ast.Call) and call_name(e) == "any" and len(e.args) == 1 and isinstance(e.args[0], (ast.GeneratorExp, ast.ListComp)) else None
+                good = (gen is not None and len(gen.generators) == 1 and not gen.generators[0].ifs and isinstance(gen.generators[0].target, ast.Name)
+                        and isinstance(gen.elt, ast.Compare) and len(gen.elt.ops) == 1 and isinstance(gen.elt.ops[0], ast.In)
+                        and isinstance(gen.elt.left, ast.Name) and gen.elt.left.id == gen.generators[0].target.id and "keywords" in norm(gen.generators[0].iter))
+                sym = f"{m.name.split('.')[-1]}.{f.name}"
+                if good:
+                    run.ok(T12, sym, f"has_keyword = {norm(e)[:60]}")
+                else:
+                    run.finding(T12, sym, f"keyword-predicate:{norm(e)[:50]}", f"{f.qual} computes has_keyword as `{norm(e)[:90]}` (in {owner.name}) instead of the per-keyword containment its sibling analyzers use: with `keywords: []` a joined pattern is empty and matches every class name, and the three languages disagree on the same name", f"{owner.module.rel}:{getattr(e, 'lineno', owner.node.lineno)}")
+    run.require(n_t12 >= 3, f"T12: only {n_t12} has_keyword producers found (python, typescript, rust analyzers)")
     return __doc__
